@@ -1612,6 +1612,20 @@ func wiringRule(c *core.Ctx, key string, fn *ssa.Function, pack bool) {
 			}
 		}
 	}
+	// in the stream transformers the bit shuffling belongs to the packed form: the loop is entered only where the
+	// receiver's packed flag was found true (the unpacked form hands the septets through as they are)
+	if fn.Signature.Recv() != nil {
+		isPackedLoad := func(cond ssa.Value) bool {
+			u, ok := cond.(*ssa.UnOp)
+			if !ok || u.Op != token.MUL {
+				return false
+			}
+			_, f, ok := fieldOfAddr(u.X)
+			return ok && f.Name() == "packed"
+		}
+		c.Decide(establishedTrue(pl.l.Header, isPackedLoad), "C08-WIRING", key+"#mode", pos, "the packing loop runs only under packed == true",
+			"the loop that packs / unpacks is not confined to the packed form (not reached only over `packed == true`): the unpacked form is bit-shuffled too")
+	}
 	if !pack {
 		seventh := func(ia *ssa.IndexAddr) bool {
 			root, lin := originOf(ia)
